@@ -36,9 +36,11 @@ def run(ctx):
     rule_ref_generics(ctx)
     rule_api_domain(ctx)
     rule_container_dispatch(ctx)
-    from .C08 import rule_truthiness, rule_positional_index
+    from .C08 import rule_descends, rule_positional_index, rule_syntax_agreement, rule_truthiness
     rule_truthiness(ctx, rule_id="C03.selector-acceptance")
     rule_positional_index(ctx, rule_id="C03.selector-acceptance")
+    rule_syntax_agreement(ctx, rule_id="C03.selector-acceptance", language_only=True)
+    rule_descends(ctx, rule_id="C03.selector-acceptance")
 
 
 def rule_table(ctx):
